@@ -32,6 +32,10 @@ CHECKS = {
             'Three-state machine, inductive step decided by z3: from each singleton state every operation (load with symbolic failure at field validation / path normalisation / each file lookup, reset, get, proxy read, proxy write) runs the real bodies of the after-validators, Config.get/reset and ConfigProxy inside a model of the pydantic pipeline; per path the outcome and post-state must be those of the reference machine (in particular: any failing load ends unconfigured). Overlay precedence: the real Config.load body merges symbolic-leaf trees of every 2-level shape and must equal an independent highest-priority-layer-wins formulation. Concrete sequences on the real pydantic class validate the pipeline model and exercise immutability at every nesting level.',
             'pydantic-core is modelled (field validation, then after-validators in definition order); immutability is enforced inside pydantic-core and only exercised concretely; trees of depth 2 with 2 keys per level',
             'proxy symbolic execution with symbolic fault points + z3; shape enumeration with symbolic leaves', 'DESIGN.md#c18'),
+    'C19': ('other',
+            'Bounded symbolic verification per kernel with the library\'s own Bada3AircraftParameters carrying symbolic coefficients: every implemented BADA-3 equation (jet/turboprop/piston fuel flow and max climb thrust, temperature correction, cruise and descent thrusts, lift/drag/total-energy thrust, density) equals an independent transcription (z3 QF_NRA); calculate_thrust selects total-energy thrust capped by max climb/cruise thrust and substitutes high/low descent thrust when negative; calculate_specific_ground_range applies the cruise correction only in cruise with the zero-flow guard; update_mass_vector(_backward) anchors the prescribed end, each step decrease equals the trapezoid of fuel per distance for scalar and per-segment lengths and mass never increases; the four iterate_* drivers preserve this and the fuel-dependent ones never exceed MTOW. Any exception of the model code is a violation (parameter access).',
+            'compositional (kernels connected through free values), exact reals, plausible-parameter assumptions listed in the evidence; scipy cumulative_trapezoid replaced by a reference model validated against scipy on each run; profiles of 3 (thorough 4) points, 3 (4) iterations',
+            'proxy symbolic execution per kernel + z3 QF_NRA', 'DESIGN.md#c19'),
     'C20': ('model_checking',
             'Bounded model checking: per-thread instruction lists are generated on every run from the AST of TrajectoryStore.__init__/close (statements touching the owner record are encoded exactly; everything else is an abstract step that may raise), two threads are interleaved at source-line granularity in a z3 transition system unrolled to the total instruction count, and "both threads admitted" must be unsat for the race and for call sequences (construct/close/construct, failed constructor calls). Satisfying schedules are enforced on the real class with real threads by a sys.settrace line scheduler; reachability twins are replayed the same way on every run to validate the encoding.',
             '2 threads; A up to 2 (thorough 3) constructor calls, B 1 (thorough 2); line-level atomicity as the property states (bytecode-level pre-emption inside a line is outside); AST shapes outside the supported set give exit 2',
